@@ -82,6 +82,16 @@ def c_ent_forms(ctx, args):
                [int(s.entropy(list(perms[0]))), int(s.entropy(tuple(perms[1]))), int(s.entropy(np.array(perms[2])))]
         if len(set(vals)) != 1:
             return {'kind': 'oracle', 'where': 'np:entropy input forms disagree', 'observed': vals, 'expected': 'equal'}
+    # the caller's own boolean mask, handed to a pure state first and to states of other ranks afterwards: never written to, and still naming the same region
+    marr = np.array(mask, dtype=np.bool_)
+    pure = NP.STATE([t[0], 0])
+    v0 = int(pure.entropy(marr))
+    vs = [int(NP.STATE([t[0], r_]).entropy(marr)) for r_ in range(0, n + 1)]
+    if [bool(b) for b in marr] != [bool(b) for b in mask]:
+        return {'kind': 'oracle', 'where': 'np:entropy wrote into the boolean mask it was given', 'observed': [bool(b) for b in marr], 'expected': [bool(b) for b in mask], 'tags': ['plain_args']}
+    ref = [int(NP.STATE([t[0], r_]).entropy(np.array(mask, dtype=np.bool_))) for r_ in range(0, n + 1)]
+    if vs != ref or v0 != ref[0]:
+        return {'kind': 'oracle', 'where': 'np:entropy of a reused mask object differs from a fresh mask', 'observed': vs, 'expected': ref, 'tags': ['plain_args']}
     if s.entropy([]) != 0:
         return {'kind': 'oracle', 'where': 'np:entropy(empty)', 'observed': s.entropy([]), 'expected': 0}
     if int(s.entropy(list(range(n)))) != t[1]:
